@@ -100,6 +100,17 @@ def count_obligations(files):
     return n, names
 
 
+# which families of translated sources (tools/translate.py: py = prophy/*.py, pc = prophyc/model.py, cpp = prophy_cpp
+# headers, prec = parser precedence tables) the theorems and model correspondences of each property depend on
+FAMILIES = {
+    "C01": "py", "C02": "py", "C06": "py", "C10": "py", "C11": "py",
+    "C03": "py,pc,cpp", "C19": "py,pc,cpp", "C04": "py,pc",
+    "C05": "pc,cpp", "C07": "pc,cpp", "C09": "pc,cpp", "C08": "pc",
+    "C14": "prec",
+    "C12": "", "C13": "", "C15": "", "C16": "", "C17": "", "C18": "", "C20": "",
+}
+
+
 class Check(object):
     def __init__(self, pid, design_ref=""):
         self.pid = pid
@@ -124,8 +135,13 @@ class Check(object):
         in its dependency cone is discharged and its assumptions are closed"""
         props_file = props_file or os.path.join(COQ, "props", self.pid + ".v")
         rel = os.path.relpath(props_file, COQ)
-        t = subprocess.run([PY, os.path.join(VERIF, "tools", "translate.py")], capture_output=True, text=True,
-                           env=common.impl_env())
+        # the source families this property is about are translated from the current tree (fail-closed); the other
+        # sections of gen/Src.v come from the reference translation of the unchanged tree (see tools/translate.py),
+        # so that a change confined to sources the property does not depend on cannot break its obligations
+        fams = FAMILIES.get(self.pid, "all")
+        env = dict(common.impl_env(), VERIF_FAMILIES=fams if fams else "none")
+        self.coverage["translated_families"] = fams if fams else "none (reference translation only: no theorem of this property depends on translated sources)"
+        t = subprocess.run([PY, os.path.join(VERIF, "tools", "translate.py")], capture_output=True, text=True, env=env)
         problem = None
         if t.returncode != 0:
             problem = {"stage": "translator", "detail": t.stderr.strip()[-2000:]}
